@@ -945,7 +945,7 @@ void DOMNodeImpl::setTextContent(const XMLCh* textContent) {
                     thisNode->removeChild(current);
                     current = thisNode->getFirstChild();
                 }
-                if (textContent != NULL)
+                if (textContent != NULL && *textContent != 0)
                 {
                     // Add textnode containing data
                     current = ((DOMDocumentImpl*)thisNode->getOwnerDocument())->createTextNode(textContent);
